@@ -47,6 +47,24 @@ def queries(tier):
         for k in ks:
             qs.append(Query("allocfail-ws-set-header-%s-k%d" % (cn, k), "c16/wsframe.c", tus=["core/list.c", "core/strs.c"], env=WENV, defs={"SETHDR": case, "FAILK": k}, unwind=30, timeout=120,
                             concrete=True, group="~c16/wsframe.c#sethdr", params={"entry_point": "ws_set_header_ext (NNG_OPT_WS_*_HEADERS, ws:header:<name>): " + cn, "failing_allocation": k}))
+    # nng_http_server_set_error_page: the copy of the page / the table entry cannot be allocated (finding F32: wrong mutex released)
+    for code, k in ((500, 0), (500, 1), (500, 2), (404, 0), (404, 1)):
+        qs.append(Query("allocfail-http-errpage-code%d-k%d" % (code, k), "c20/http_errpage.c", tus=["core/list.c", "core/strs.c"], env=ENV + ["env_aio.c", "env_msg.c"],
+                        defs={"CODE": code, "FAILK": k}, unwind=20, timeout=120, concrete=True, group="c20/http_errpage.c",
+                        params={"entry_point": "nni_http_server_set_error_page (status %d, a page for 404 exists)" % code, "failing_allocation": k}))
+    # SUB: subscribe (topic node, topic bytes), RECVBUF resize, the per-context copy of an arriving message - inside event skeletons, so that
+    # what happens AFTER the failed call is checked too (a call that reported NNG_ENOMEM must have changed nothing: the functional checks apply again)
+    from props import C05
+    for w in ("A(0) FA(0) U(0,1) W(0) R(0,0,0) Z", "A(0) U(0,1) FA(0) U(0,2) WK(0,1) R(0,0,0) Z", "A(0) U(0,1) FA(1) U(0,2) WK(0,1) R(0,0,0) Z",
+              "A(0) U(0,0) W(0) W(0) W(0) FA(0) B(0,1) R(0,0,0) R(0,1,0) Z", "A(0) U(0,0) W(0) FA(0) B(0,3) W(0) R(0,0,0) R(0,1,0) Z",
+              "A(0) U(0,0) U(1,0) FM(0) W(0) R(1,0,0) R(0,1,0) Z", "A(0) U(0,0) U(1,0) R(1,0,1) FM(0) W(0) R(0,1,0) Z", "A(0) U(1,1) FA(0) U(1,3) N(1,1) Z"):
+        from vp import skel
+        d = {"SKEL": w, "VH_FAULTPASS": 1}
+        if "(1," not in w:
+            d["ONECTX"] = 1
+        qs.append(Query("allocfail-sub-" + skel.tag(w), "c05/sub.c", tus=C05.TUS, env=C05.ENV, defs=d, unwind=10, unwind_rules=skel.KIT_RULES, timeout=300, group="~c05/sub.c#fault",
+                        params={"entry_point": "sub0 subscribe / set RECVBUF / receive path inside a skeleton", "skeleton": w,
+                                "failing_allocation": "FA(k): k-th allocator request from there on; FM(k): k-th message duplication"}))
     # inproc hand-off of a shared message: the private copy for the receiver cannot be allocated
     from props import C01
     for q in C01.queries(tier):
